@@ -1,6 +1,13 @@
 #!/bin/sh
-# Build the framework from files on disk only (offline).
-set -e
+# Build the framework from files on disk only (offline). Failures here are reported by the
+# individual checks (which rebuild what they need), so keep going.
 cd "$(dirname "$0")"
-(cd lean && lake build Bnum bnum_driver 2>&1 | tail -3)
-if [ -d harness ]; then (cd harness && CARGO_NET_OFFLINE=true RUSTFLAGS="--cfg bnum_verif" cargo build --offline --bins 2>&1 | tail -3); fi
+export CARGO_NET_OFFLINE=true
+(cd lean && lake build bnum_driver 2>&1 | tail -2)
+for f in lean/Bnum/Props/C*.lean; do
+  m=$(basename "$f" .lean)
+  (cd lean && lake build "Bnum.Props.$m" 2>&1 | tail -1)
+done
+(cd harness && cargo build --offline --bins 2>&1 | tail -2; cargo build --offline --bins --profile rel 2>&1 | tail -2)
+(cd harness && cargo +nightly build --offline --bin c15 --features nightly --target-dir target/nightly 2>&1 | tail -1)
+exit 0
